@@ -2,11 +2,9 @@
 //      concatenation, in order, of the bytes each source yields.  Sources: arrays and vectors of u8 (by value or by reference),
 //      byte slices, one byte (`iter::once`), and an already-built chain.
 pub struct VxBytes(pub Vec<u8>);
-pub trait VxByteVal { spec fn vx_val(self) -> u8; }
-impl VxByteVal for u8 { open spec fn vx_val(self) -> u8 { self } }
-impl<'a> VxByteVal for &'a u8 { open spec fn vx_val(self) -> u8 { *self } }
 pub struct VxOnce(pub u8);
-#[verifier::external_body] pub fn vx_once<T: VxByteVal>(x: T) -> (r: VxOnce) ensures r.0 == x.vx_val() { unimplemented!() }
+pub fn vx_once(x: u8) -> (r: VxOnce) ensures r.0 == x { VxOnce(x) }
+pub fn vx_once_ref(x: &u8) -> (r: VxOnce) ensures r.0 == *x { VxOnce(*x) }
 pub struct VxRef<'a>(pub &'a [u8]);
 pub fn vx_ref_src<'a>(s: &'a [u8]) -> (r: VxRef<'a>) ensures r.0@ == s@ { VxRef(s) }
 pub trait VxByteSource: Sized {
@@ -21,6 +19,9 @@ impl<'a> VxByteSource for &'a [u8] { open spec fn vx_seq(self) -> Seq<u8> { self
 impl<'a> VxByteSource for VxRef<'a> { open spec fn vx_seq(self) -> Seq<u8> { self.0@ } #[verifier::external_body] fn vx_bytes(self) -> (r: VxBytes) { VxBytes(self.0.to_vec()) } }
 impl VxByteSource for VxOnce { open spec fn vx_seq(self) -> Seq<u8> { seq![self.0] } #[verifier::external_body] fn vx_bytes(self) -> (r: VxBytes) { VxBytes(vec![self.0]) } }
 impl VxByteSource for VxBytes { open spec fn vx_seq(self) -> Seq<u8> { self.0@ } fn vx_bytes(self) -> (r: VxBytes) { self } }
+pub struct VxOpt<S>(pub Option<S>);
+pub fn vx_opt_src<S: VxByteSource>(o: Option<S>) -> (r: VxOpt<S>) ensures r.0 == o { VxOpt(o) }
+impl<S: VxByteSource> VxByteSource for VxOpt<S> { open spec fn vx_seq(self) -> Seq<u8> { match self.0 { Some(s) => s.vx_seq(), None => Seq::empty() } } #[verifier::external_body] fn vx_bytes(self) -> (r: VxBytes) { match self.0 { Some(s) => s.vx_bytes(), None => VxBytes(Vec::new()) } } }
 impl VxBytes {
     #[verifier::external_body] pub fn vx_then<S: VxByteSource>(self, s: S) -> (r: VxBytes) ensures r.0@ == self.0@ + s.vx_seq() { let mut v = self.0; v.extend(s.vx_bytes().0); VxBytes(v) }
     pub fn vx_collect(self) -> (r: Vec<u8>) ensures r@ == self.0@ { self.0 }
